@@ -602,6 +602,7 @@ func TestC05(t *testing.T) {
 		"noise with and without markers) with and without dialect and key under the same chunkings plus all segmentations when <= 14 bytes; (c) a transport error (transient and persistent) " +
 		"injected at every byte offset; (d) the same streams through tlog.Reader (totality, termination). Byte accounting consumed = delivered - BufByteReader.Buffered() around every call. " +
 		"distinct = distinct streams")
+	rep.RuleAdd("Also: complete v1 / unsigned v2 frames inside the clean streams of keyed readers (rejected as a unit); idle transports; a transport that answers io.EOF or an error once at a frame boundary and goes on; eight concurrent readers on one dialect.")
 	rep.Assume("a transport error met in the middle of a frame may be reported inside a frame.ReadError (allowed result class)")
 	rep.Assume("chunking independence is asserted for fault-free streams only (the statement quantifies over streams and splittings, not faults)")
 	seed := vh.Seed()
